@@ -37,6 +37,9 @@ int main(void)
   uint32_t n1 = nondet_u32(), n2 = nondet_u32(), n3 = nondet_u32();
   VF_ASSUME(n1 <= HI && n2 <= HI && n3 <= HI); uint32_t T = n1 + n2 + n3; VF_ASSUME(T >= LO && T <= HI);
   VF_ASSUME(n1 >= 5);                                  /* the header always encodes at least 35=x| */
+#ifdef FIXSPLIT
+  n1 = 5; n3 = 0; n2 = T - 5; VF_ASSUME(T >= 5);       /* one split only: framing depends on the sum; the back-to-back layout is still checked */
+#endif
   cx_n1 = n1; cx_n2 = n2; cx_n3 = n3; n_sub[0] = n1; n_sub[1] = n2; n_sub[2] = n3;
   W_sum = nondet_u32(); VF_ASSUME(W_sum < 256); cx_sum = W_sum;
   uint8_t *store = out;
